@@ -29,9 +29,19 @@ def run(cmd, cwd=wt, timeout=900, env=env):
 
 res = {}
 run("git checkout -- .")
-rc, out = run(f"git apply --check {patch}")
-res["applies"] = rc == 0
+head = subprocess.run("git -C /repo rev-parse HEAD", shell=True, stdout=subprocess.PIPE, text=True).stdout.strip()
+run(f"git checkout -q --detach {head}")
+res["base"] = head
 rc, out = run(f"git apply {patch}")
+if rc != 0:
+    # the sub-agent worked on an older HEAD (before a fix: commit): re-anchor the same edit with fuzz
+    rc, out = run(f"patch -p1 -F3 --no-backup-if-mismatch < {patch}")
+    res["rebased_with_fuzz"] = True
+    if rc == 0:
+        rc2, diff = run("git diff")
+        patch = src / "patch.rebased.diff"
+        patch.write_text(diff)
+res["applies"] = rc == 0
 rc, out = run("/venv/bin/python -m pytest -q -p no:cacheprovider -x stackscope 2>&1 | tail -3")
 res["tests_with_patch"] = out.strip().splitlines()[-1] if out.strip() else ""
 res["tests_pass"] = " passed" in out and "failed" not in out and "error" not in out.lower()
